@@ -286,8 +286,10 @@ namespace detail
 	{
 		GLM_STATIC_ASSERT(std::numeric_limits<T>::is_integer, "'bitfieldInsert' only accept integer values");
 
-		T const Mask = detail::mask(static_cast<T>(Bits)) << Offset;
-		return (Base & static_cast<T>(~Mask)) | ((Insert << static_cast<T>(Offset)) & Mask);
+		// Build the mask and move the bits in the unsigned domain: shifting negative signed values left is undefined
+		typedef typename detail::make_unsigned<T>::type U;
+		U const Mask = static_cast<U>(detail::mask(static_cast<U>(Bits)) << Offset);
+		return vec<L, T, Q>((vec<L, U, Q>(Base) & static_cast<U>(~Mask)) | ((vec<L, U, Q>(Insert) << static_cast<U>(Offset)) & Mask));
 	}
 
 #if GLM_COMPILER & GLM_COMPILER_VC
